@@ -24,7 +24,7 @@ RULE = (
     'cell lengths {1,2.2,4,6.3,7.3,9.9} (orthogonal, triclinic, rotated) x resolutions {0.1,0.2,0.25,0.3,0.5,0.7,1,'
     'L}; per axis every voxel k: coordinates k/n, k/n+-1e-6, (k+1/2)/n, plus 0 and 1-1e-16, other axes generic; '
     '3-D products on grids with unequal axes (every voxel, multiplicity pattern); round trip for every index of '
-    'every grid size <= 2048; evaluation = one probed coordinate; distinct = distinct (shape, histogram) outcomes'
+    'every grid size <= 2048 (argument arrays unchanged); slab cells with 300 voxels on one axis; 2^20+64 samples; source in position or displacement mode; evaluation = one probed coordinate; distinct = distinct (shape, histogram) outcomes'
 )
 LEVEL_TEXT = (
     'Bounded-exhaustive over the cell/resolution alphabet and EVERY voxel edge and centre of every '
